@@ -231,6 +231,16 @@ m("neutral-dispatch-under-a-lock", "chartparse/track.py",
   "    m = ParsedDataMap()\n    for line in lines:\n        for t in types:\n            try:\n                data = t.from_chart_line(line)\n            except RegexNotMatchError:\n                continue\n            m[t].append(data)\n            break\n        else:\n            logger.warning(_unparsable_line_msg_tmpl.format(line, [t.__qualname__ for t in types]))\n    return m\n",
   "    m = ParsedDataMap()\n    import threading\n    lock = globals().setdefault(\"_dispatch_lock\", threading.Lock())\n    for line in lines:\n        with lock:\n            for t in types:\n                try:\n                    data = t.from_chart_line(line)\n                except RegexNotMatchError:\n                    continue\n                m[t].append(data)\n                break\n            else:\n                logger.warning(_unparsable_line_msg_tmpl.format(line, [t.__qualname__ for t in types]))\n    return m\n",
   [], ["C17", "C14"])
+m("neutral-filepath-read-text", "chartparse/chart.py",
+  "        with open(path, \"r\", encoding=\"utf-8-sig\") as f:\n            return Chart.from_file(f, want_tracks=want_tracks)\n",
+  "        import io\n\n        return Chart.from_file(io.StringIO(Path(path).read_text(encoding=\"utf-8-sig\")), want_tracks=want_tracks)\n",
+  [], ["C15", "C06", "C01"])
+m("neutral-partition-list-slices", "chartparse/chart.py",
+  "                d[curr_header_tag] = itertools.islice(\n                    lines, curr_first_line_index, curr_last_line_index + 1\n                )\n",
+  "                d[curr_header_tag] = list(lines[curr_first_line_index : curr_last_line_index + 1])\n",
+  [], ["C06", "C13", "C14", "C10"])
+m("neutral-eq-via-vars", "chartparse/util.py",
+  "        return self.__dict__ == other.__dict__", "        return vars(self) == vars(other)", [], ["C19", "C17"])
 m("neutral-getitem-copy", "chartparse/chart.py",
   "        return self.instrument_tracks[instrument]\n", "        return dict(self.instrument_tracks[instrument])\n", [], ["C19", "C13"])
 
